@@ -76,7 +76,13 @@ def _deprecated(r):
         return " @deprecated"
     if x < 0.24:
         return ' @deprecated(reason: "%s")' % r.choice(
-            ("use other", 'old \\"thing\\"', "No longer supported"))
+            ("use other", 'old \\"thing\\"', "No longer supported",
+             # reasons of several lines (Markdown, code blocks, pasted text):
+             # leading / trailing line breaks, common indentation, CR LF
+             "first line\\nsecond line", "\\nleading break",
+             "trailing break\\n", "    code block\\n    more code",
+             "dos\\r\\nline ends\\r\\n", "tab\\tinside",
+             "  padded  "))
     return ""
 
 
@@ -84,7 +90,9 @@ DEFAULTS = {
     "Box": ("{pt: {x: 1}}", "{pt: {x: 2, y: 5}, tags: [\"a\"]}", "null"),
     "[Pt!]": ("[{x: 1}, {x: 2, y: 0}]", "[]"),
     "Int": ("0", "-3", "42"),
-    "Float": ("1.5", "0.25", "-2.0"),
+    "Float": ("1.5", "0.25", "-2.0", "0.0000001", "1e+20", "-1.5E-9"),
+    # the SDL pool's custom scalar: string defaults that look like numbers
+    "Date": ('"2020-01-01"', '"02134"', '"1e3"', '"12"', "7"),
     "String": ('"x"', '"two words"', '"q\\"uote"', '""'),
     "Boolean": ("true", "false"),
     "ID": ('"abc"', "12"),
